@@ -123,10 +123,18 @@ def float_lines(ctx):
             for b in sp:
                 lines.append("alias %s 0 %s,%s S:0,0 S:0,ffffffffffffffff S:ffffffffffffffff,ffffffffffffffff S:8000000000000000,ffffffffffffffff" % (ty, a, b))
                 meta.append((ty, [a, b]))
-        for k in range(100 if tier == "quick" else 5000):
+        for k in range(300 if tier == "quick" else 8000):
             n = 1 + rng.below(9)
-            ws = [fhex(ty, (rng.below(1 << 20)) / 1024.0 * (0 if rng.chance(1, 5) else 1)) for _ in range(n)]
-            lines.append("alias %s 0 %s S:%x,ffffffffffffffff S:%x,%x" % (ty, ",".join(ws), rng.u64(), rng.u64(), rng.u64()))
+            mode = k % 3
+            if mode == 0:     # dyadic weights: sums are exact
+                ws = [fhex(ty, (rng.below(1 << 20)) / 1024.0 * (0 if rng.chance(1, 5) else 1)) for _ in range(n)]
+            elif mode == 1:   # full-mantissa weights: every sum and product rounds
+                ws = [fhex(ty, (rng.below(1 << 53) + 1) / float(1 << 53) * (0 if rng.chance(1, 6) else 1)) for _ in range(n)]
+            else:             # decimal-looking weights (0.1 .. 9.9)
+                ws = [fhex(ty, (1 + rng.below(99)) / 10.0) for _ in range(n)]
+            # every column with the largest threshold draw, plus random draws
+            cols = " ".join("S:%x,ffffffffffffffff" % ((-((-c << 32) // n)) << 32) for c in range(n))
+            lines.append("alias %s 0 %s %s S:%x,%x" % (ty, ",".join(ws), cols, rng.u64(), rng.u64()))
             meta.append((ty, ws))
     return lines, meta
 
@@ -269,7 +277,9 @@ def correspond(ctx):
                         i = int(s.split(":")[1])
                         if i >= n:
                             fail = "sample() returned %d for %d float weights %s" % (i, n, vals)
-                            if i == 4294967295:
+                            # F8's class: the weight sum is subnormal (Uniform(0,S) can return S itself)
+                            tiny = 1.1754943508222875e-38 if ty == "f32" else 2.2250738585072014e-308
+                            if i == 4294967295 and sum(vals) < tiny:
                                 cls = "float-alias-sentinel"; fsent += 1
                         elif vals[i] == 0:
                             fail = fail or "sample() returned zero-weight index %d of %s" % (i, vals)
